@@ -16,6 +16,72 @@ CHECKS = {
             "Thousands of generated functions x 16-96 random initial states are executed before and after each single pass, each pipeline step and normalize_optimize as a whole; every load/store/call/indirect jump/return event and the register+memory digest at calls/returns/dead ends must agree. Held = no trace difference on the executions listed in the evidence file; one recorded known finding (CALLOTHER return sites) is reported as KNOWN-FINDING.",
             "trusts irx/pref as reading of the IR semantics; calls opaque with identical havoc; domain guards listed in the evidence assumptions (aligned entry stack pointer, entry block with stack masking executed once, block-local temporaries, 0/1 flags)",
             "DESIGN.md §3 C10"),
+
+    "C02": ("vmon-refmodel",
+            "reference-model + invariant monitor: real interval transfer functions run on all 1-byte intervals (gamma as 256-bit bitmaps, all members) and sampled wider ones, concrete semantics from the independent P-Code evaluator; well-formedness invariant on every produced interval; witness-shadowed operation chains",
+            "Unary ops/casts/subpieces: every well-formed 1-byte interval with every member (complete for that width); binary ops: boundary-biased pairs with all members of both; widths 2/4/8 and chains sampled. Held = every concrete result was a member of the abstract result and every produced interval was well-formed, on the executions listed in the evidence.",
+            "trusts pref.rs; inputs with hints only via the public API; release profile",
+            "DESIGN.md §3 C02"),
+    "C03": ("vmon-refmodel",
+            "reference-model monitor: real merge/merge_with of every abstract domain executed next to harness-defined concretisations (gamma) with pointwise inclusion/equality oracles; merge chains with concrete witnesses",
+            "Exhaustive for 1-byte BitvectorDomain pairs, Taint pairs and a 1-byte interval mini-universe (with/without widening); sampled for DataDomain, DomainMap under each strategy, MemRegion and wider intervals. Held = over-approximation, self-merge and re-merge stability of gamma on all executions in the evidence.",
+            "gamma functions written from the documentation; hints/delays are not part of gamma (structure may change when the set does not)",
+            "DESIGN.md §3 C03"),
+    "C04": ("vmon-refmodel",
+            "reference-model monitor: add_*_bound / intersect executed on all 1-byte intervals x all 256 bounds (slice in quick, exhaustive in thorough) and sampled wider values; oracle = bitmap of members satisfying the condition must stay represented, Err only if none",
+            "Complete for 1-byte intervals x bounds in the thorough tier (seeded slice in quick); intersect pairs, widths 2/4/8 and DataDomain absolute parts are samples. One recorded known finding (lcm overflow in intersect) printed as KNOWN-FINDING.",
+            "conditions evaluated by plain integer comparison in the harness; DataDomain judged on its absolute part only (its intersect is documented as unsound for relative values)",
+            "DESIGN.md §3 C04"),
+    "C05": ("vmon-refmodel",
+            "history + executable model: random and exhaustive-short operation histories on real MemRegions with unique write ids, compared after every operation with a brute-force byte-ownership cell-store model; delta-debugged witnesses",
+            "All histories of length <=2 (quick) / <=3 (thorough) over a 394-operation alphabet plus random histories up to length 60, two value domains; after every operation full dump == model, no overlap, no stored top, get/get_unsized agree. Held on the histories counted in the evidence.",
+            "model written from the module documentation and the property statement; mark_interval end is an inclusive write offset",
+            "DESIGN.md §3 C05"),
+    "C06": ("vmon-refmodel",
+            "reference-model monitor with bounded concretisation (all strings up to length 7 over {a,b}); brick operations run on watchdog threads (CPU-time bound) so non-termination is observed as a violation; CI domain exhaustive over a 3-4 letter alphabet",
+            "All 1- and 2-brick lists and ordered brick pairs over a 277-brick set, sampled 3-brick lists and fed-back results; gamma(normalize x)=gamma(x), concatenations in gamma(append), members in gamma(merge)/gamma(widen). Held on the executions in the evidence; bounds above 7 are indistinguishable from unbounded.",
+            "bounded gamma is exact on strings of length <= 7; only constructor-reachable brick shapes",
+            "DESIGN.md §3 C06"),
+    "C07": ("vmon-refmodel",
+            "reference-model monitor: the real worklist solver run on generated monotone problems (harness-implemented Context with per-edge call counters) under all/many priority orders and step bounds, compared with naive chaotic iteration; same for the forward/backward interprocedural wrappers on generated CFGs",
+            "All priority permutations for graphs up to 6 nodes, 200 random ones beyond, every step bound until stabilisation; least solution equality, closedness when 'stabilized', per-edge call count <= bound, worklist emptiness. One recorded known finding (wrapper default value with combinator nodes) printed as KNOWN-FINDING.",
+            "transfer functions are monotone by construction; the CFG is taken as given (C08)",
+            "DESIGN.md §3 C07"),
+    "C15": ("vmon-refmodel",
+            "reference-model monitor: the real CWE476 module run through the full pipeline (signatures, pointer inference) on generated programs and compared with an explicit-state path search written from the statement; deviations classified by coded discriminators",
+            "Thousands of generated programs per run; expected set of reported source calls == reported set, at most one warning per source, reported access is a reachable sink. Three recorded known findings (join-merge, calls without return site, a pointer-inference panic) are printed as KNOWN-FINDING; everything else is a violation.",
+            "oracle evaluated on the normalised program; flows through memory excluded by the statement; callees whose Return is unreachable are inconclusive",
+            "DESIGN.md §3 C15"),
+    "C16": ("vmon-refmodel",
+            "reference-model monitor: real CWE676/782/426/332 modules run on generated programs/import tables/configurations, compared (multisets of name, addresses, tids, symbols) with a direct scan of the normalised program",
+            "Hundreds of thousands of module runs per quick tier incl. decoy/near-miss symbol names, calls without return site, duplicate names; held = multiset equality on all of them.",
+            "unique import names (duplicates are outside the domain); CWE332 identified by configured names in the message",
+            "DESIGN.md §3 C16"),
+    "C17": ("vmon-refmodel",
+            "reference-model monitor: real CWE367/CWE243 modules run on generated programs, compared with block-level intraprocedural reachability computed by the harness; panics are violations",
+            "Generated functions with branches, loops, internal/extern/indirect calls, chroot without return site and in two-jump blocks; expected multiset of (check,use,site) resp. chroot call sites == reported. Held on the programs counted in the evidence.",
+            "callee 'can return' is syntactic (contains a Return), as in the CFG builder; check/use symbols are returning externs with return sites",
+            "DESIGN.md §3 C17"),
+    "C19": ("vmon-refmodel",
+            "reference-model monitor: RuntimeMemoryImage queries at every address around every segment boundary compared with a flat byte map; images built directly, from generated ELF (ET_EXEC/ET_DYN/ET_REL kernel module) files and bare-metal configs",
+            "Every address from base-2 to end+2 of every segment x sizes 1,2,4,8 for read / is_global / writeable / interval / ro-pointer / string queries over random layouts incl. adjacent and empty segments, both byte orders. Held on the queries counted in the evidence.",
+            "read-only = !write_flag; string reads may fail without NUL or for non-UTF-8; constructor rejections of bare-metal configs are inconclusive, not violations",
+            "DESIGN.md §3 C19"),
+    "C20": ("vmon-refmodel",
+            "reference-model monitor: parse_format_string_parameters run on grammar-generated format strings (exhaustive over forms x flags x widths x precisions x adjacency contexts, plus random sequences) and compared with an independent hand-written scanner",
+            "All 45 conversion forms x 5 flags x 6 widths x 5 precisions x 7 prefix x 7 suffix contexts under 5 datatype configurations, plus random sequences. Held = same argument list (type,size,order) or same rejection on all of them.",
+            "only in-grammar strings; documented types per printf(3)",
+            "DESIGN.md §3 C20"),
+    "C24": ("vmon-refmodel",
+            "reference-model monitor: get_program_callgraph / find_call_sequences_to_target on generated programs compared with planted call sites and a Warshall transitive closure",
+            "All digraphs with self loops on up to 4 functions and all (source,target) pairs exhaustively, random programs up to 8 functions with parallel/extern/indirect/dangling calls. Held = set equality of call tids on all queries.",
+            "a path is a walk; source==target expects only calls on cycles through the source",
+            "DESIGN.md §3 C24"),
+    "C25": ("vmon-history",
+            "recorded history + offline checker: real LogThread driven by 2-6 sender threads with unique message ids, start/end stamps from one atomic counter at the client boundary, collect racing with sends; thorough tier adds Miri (-Zmiri-many-seeds) for data races/UB and more schedules",
+            "15k (quick) / 256k (thorough) short histories, each executed twice; no phantoms/duplicates, every address-less log completed before the collect request returned, real-time and per-sender order, per address exactly one possible-last message kept. Evidence reports distinct output orders and stamp interleavings observed. Held on those histories; no finite run covers all interleavings.",
+            "schedules sampled by the OS (and Miri's seeded scheduler in thorough); a hang is reported after 30 s",
+            "DESIGN.md §3 C25"),
 }
 
 NOT_YET = "monitor designed (DESIGN.md §3) but not built yet in this revision of /verif"
